@@ -153,6 +153,56 @@ template<multi::dimensionality_type D, bool Elems> void run_case(std::string con
 	else std::fprintf(fans, "algo FAIL %s %s D=%d n=%ld k1=%ld%s\n", name.c_str(), Elems ? "elems" : "rows", static_cast<int>(D), static_cast<long>(A.size()), k1, fail.c_str());
 }
 
+// `x tr …`: the real std:: algorithm on a std::vector<long> of independent values — the Lean driver runs the hand-transcribed
+// loop (MultiProofs/AlgoProgs.lean) on the same values and must print the same position and the same contents, cell for
+// cell (lean/Driver/AlgoTr.lean has the table of parameters).  Ties the transcriptions to libstdc++.
+static void run_tr(std::vector<std::string> const& w) {
+	std::string name = w[2]; long p1 = std::stol(w[3]), p2 = std::stol(w[4]), p3 = std::stol(w[5]); long n = std::stol(w[6]);
+	std::vector<long> x; for(long i = 0; i < n; ++i) x.push_back(std::stol(w[7 + static_cast<std::size_t>(i)]));
+	auto b = x.begin(); long pos = 0;
+	if(name == "reverse") { std::reverse(x.begin(), x.end()); }
+	else if(name == "fill") { std::fill(b + p1, b + p1 + p2, p3); pos = p1 + p2; }
+	else if(name == "partition") { pos = std::partition(x.begin(), x.end(), [](long v) { return v % 2 == 0; }) - b; }
+	else if(name == "unique") { pos = std::unique(x.begin(), x.end()) - b; }
+	else if(name == "remove") { pos = std::remove(x.begin(), x.end(), p1) - b; }
+	else if(name == "find") { pos = std::find(x.begin(), x.end(), p1) - b; }
+	else if(name == "is_sorted") { pos = std::is_sorted(x.begin(), x.end()) ? 1 : 0; }
+	else if(name == "accumulate") { pos = std::accumulate(x.begin(), x.end(), p1, [](long a, long v) { return (a * 3 + v) % 1000003; }); }
+	else if(name == "copy") { pos = std::copy(b + p1, b + p1 + p3, b + p2) - b; }
+	else if(name == "copy_backward") { pos = std::copy_backward(b + p1 - p3, b + p1, b + p2) - b; }
+	else if(name == "swap_ranges") { pos = std::swap_ranges(b + p1, b + p1 + p3, b + p2) - b; }
+	else if(name == "transform") { pos = std::transform(b + p1, b + p1 + p3, b + p2, [](long v) { return 2 * v + 1; }) - b; }
+	else if(name == "equal") { pos = std::equal(b + p1, b + p1 + p3, b + p2) ? 1 : 0; }
+	else if(name == "lexcmp") { pos = std::lexicographical_compare(b + p1, b + p1 + p3 / 16, b + p2, b + p2 + p3 % 16) ? 1 : 0; }
+	else { std::fprintf(stderr, "harness: unknown transcription %s\n", name.c_str()); std::abort(); }
+	std::string out = "tr " + std::to_string(pos);
+	for(long v : x) out += " " + std::to_string(v);
+	std::fprintf(fans, "%s\n", out.c_str());
+}
+
+static char const* const TRS[] = {"reverse", "fill", "partition", "unique", "remove", "find", "is_sorted", "accumulate", "copy", "copy_backward",
+	"swap_ranges", "transform", "equal", "lexcmp"};
+constexpr int NTRS = 14;
+// one generated `x tr` line: values with duplicates (modulus 2..6), sometimes sorted, length 0..12; parameters made valid here
+static std::string gen_tr(Rng& rng) {
+	std::string name = TRS[rng.range(0, NTRS - 1)];
+	long n = rng.range(0, 12); long modulus = rng.range(2, 6);
+	std::vector<long> x; for(long i = 0; i < n; ++i) x.push_back(rng.range(0, modulus - 1));
+	if(rng.coin(name == "is_sorted" ? 60 : 15)) std::sort(x.begin(), x.end());
+	long p1 = 0, p2 = 0, p3 = 0;
+	if(name == "fill") { p1 = rng.range(0, n); p2 = rng.range(0, n - p1); p3 = rng.range(0, 9); }
+	else if(name == "remove" || name == "find") { p1 = rng.range(0, modulus); }
+	else if(name == "accumulate") { p1 = rng.range(0, 1000); }
+	else if(name == "copy" || name == "transform") { p3 = rng.range(0, n); p1 = rng.range(0, n - p3); p2 = rng.range(0, n - p3); if(!(p2 <= p1 || p1 + p3 <= p2)) p2 = p1; }
+	else if(name == "copy_backward") { p3 = rng.range(0, n); p1 = p3 + rng.range(0, n - p3); p2 = p3 + rng.range(0, n - p3); if(!(p1 <= p2 || p2 + p3 <= p1)) p2 = p1; }
+	else if(name == "swap_ranges") { p3 = rng.range(0, n / 2); p1 = rng.range(0, n - p3); p2 = rng.range(0, n - p3); if(!(p1 + p3 <= p2 || p2 + p3 <= p1)) p3 = 0; }
+	else if(name == "equal") { p3 = rng.range(0, n); p1 = rng.range(0, n - p3); p2 = rng.coin(40) ? p1 : rng.range(0, n - p3); }
+	else if(name == "lexcmp") { long n1 = rng.range(0, n), n2 = rng.range(0, n); p1 = rng.range(0, n - n1); p2 = rng.coin(30) ? std::min(p1, n - n2) : rng.range(0, n - n2); p3 = n1 * 16 + n2; }
+	std::string line = "x tr " + name + " " + std::to_string(p1) + " " + std::to_string(p2) + " " + std::to_string(p3) + " " + std::to_string(n);
+	for(long v : x) line += " " + std::to_string(v);
+	return line;
+}
+
 // C11: with the bounds-tracking pointer every dereference outside the roots' storage is counted; one line per program
 static std::vector<std::pair<long, long>> g_roots;
 static void report_oob() {
@@ -184,6 +234,7 @@ static void exec_line(std::string const& line) {
 		return;
 	}
 	if(w[0] == "v") { regs[static_cast<std::size_t>(std::stoi(w[1]))] = apply_any(regs[static_cast<std::size_t>(std::stoi(w[2]))], parse_op(w)); return; }
+	if(w[0] == "x" && w[1] == "tr") { run_tr(w); return; }
 	if(w[0] == "x" && w[1] == "algo") {
 		std::string name = w[2]; bool elems = w[3] == "elems"; int ra = std::stoi(w[4]); int rb = std::stoi(w[5]);
 		std::uint64_t dseed = std::strtoull(w[6].c_str(), nullptr, 10); long k1 = std::stol(w[7]); long k2 = std::stol(w[8]);
@@ -311,6 +362,7 @@ static void run_generated(std::uint64_t seed, long nprog) {
 			long k1 = len == 0 ? 0 : rng.range(0, len);
 			exec_line("x algo " + name + " " + (elems ? "elems" : "rows") + " 1 " + (needs_b(name) ? "11" : "-1") + " " + std::to_string(rng.next() % 100000) + " " + std::to_string(k1) + " " + std::to_string(rng.range(0, 50)));
 		}
+		{ int ntr = static_cast<int>(rng.range(1, 3)); for(int c = 0; c < ntr; ++c) exec_line(gen_tr(rng)); }
 	}
 }
 
